@@ -9,6 +9,7 @@
 package c07
 
 import (
+	"crypto/ed25519"
 	"fmt"
 	"net/netip"
 	"strings"
@@ -322,7 +323,7 @@ func flip(raw []byte, byteIdx, bit int) []byte {
 func TestC07(t *testing.T) {
 	env := kit.GetEnv()
 	rep := kit.NewReport("C07", env)
-	rep.Rule = "per ping kind (hello req/resp, pong req/resp, error codes 0-4 + unknown, disconnect going-down/list, announce with 0 and 1 hop), produced by the real sender code of peer X in a fresh 6-router world: (a) every single-bit flip of every authenticated header byte (all except TTL/flow), the length fields and the signature/MAC, and one bit per body byte (thorough: all bits); (b) source rewritten to each other known identity, destination rewritten; (c) same ping re-built and sealed by another router claiming X's address; (d) first-contact variants with header key right / wrong / for another address; (e) replay of the exact frame after {nothing, a newer valid ping from X, a ping from Y, +31 s, a newer valid ping of each of the other kinds from X}; (f) the valid ping itself with its type-specific effect bound; snapshot = table + sessions(keys, MTU) + stored info/offline flags + connection verdicts; non-trivial = mutation hits an authenticated byte or the case must be rejected; states = distinct snapshots observed"
+	rep.Rule = "per ping kind (hello req/resp, pong req/resp, error codes 0-4 + unknown, disconnect going-down/list, announce with 0 and 1 hop), produced by the real sender code of peer X in a fresh 6-router world: (a) every single-bit flip of every authenticated header byte (all except TTL/flow), the length fields and the signature/MAC, and one bit per body byte (thorough: all bits); (b) source rewritten to each other known identity, destination rewritten; (c) same ping re-built and sealed by another router claiming X's address; (c2) a relayed announcement whose delivering peer forges an inner hop record of a router the receiver already knows, with its own key embedded; (d) first-contact variants with header key right / wrong / for another address; (e) replay of the exact frame after {nothing, a newer valid ping from X, a ping from Y, +31 s, a newer valid ping of each of the other kinds from X}; (f) the valid ping itself with its type-specific effect bound; snapshot = table + sessions(keys, MTU) + stored info/offline flags + connection verdicts; non-trivial = mutation hits an authenticated byte or the case must be rejected; states = distinct snapshots observed"
 	rep.Assumptions = []string{
 		"state is observed through exported accessors plus the VerifEntries hook; pending-ping bookkeeping (active hello/pong ids, error rate limiter) is not part of the statement's state list",
 		"disconnect pings are addressed to the router itself: as emitted by the real sender (unicast type to the multicast address) they are never dispatched to the disconnect handler at all",
@@ -485,6 +486,38 @@ func TestC07(t *testing.T) {
 				return out, impostor
 			}, nil)
 			mustUnchanged(k, "sealed-by-other-router", o, map[string]any{"kind": k.name, "impostor": imp})
+		}
+		// (c2) relayed announcements: the delivering peer X invents an inner hop record
+		// that names a router R already knows (Z or Y) but carries and is signed with
+		// X's own key, and wraps it with a genuine record of its own.
+		if k.name == "announce-1-hop" {
+			for _, victim := range []int{iZ, iY} {
+				if !mine() {
+					continue
+				}
+				victim := victim
+				o := run(k, func(tw *tworld, raw []byte) ([]byte, *kit.Node) {
+					ms, as, ae := authStart(raw)
+					_ = ms
+					ctx := make([]byte, 16+8+64)
+					copy(ctx[:16], raw[16:32])
+					copy(ctx[16:24], raw[8:16])
+					copy(ctx[24:], raw[as:ae])
+					xid := tw.x.Identity()
+					sign := func(att router.AnnouncePingAttachment) []byte {
+						data := kit.MustCBOR(att)
+						sig, err := xid.PrivateKey.Sign(nil, data, &ed25519.Options{Context: string(ctx)})
+						must(err)
+						return append(data, sig...)
+					}
+					forged := xid.PublicAddress
+					forged.IP = pool[victim].IP
+					inner := sign(router.AnnouncePingAttachment{Router: forged, Delay: 5, ForwardLabel: 3, ReturnLabel: 4})
+					outer := sign(router.AnnouncePingAttachment{Router: xid.PublicAddress, Delay: 5, ForwardLabel: 31, ReturnLabel: 21, NextAttachment: inner})
+					return append(append([]byte(nil), raw[:ae]...), outer...), nil
+				}, nil)
+				mustUnchanged(k, "forged-hop-of-known-router", o, map[string]any{"kind": k.name, "victim": victim})
+			}
 		}
 		// (e) replays.
 		betweens := []string{"nothing", "newer-ping-from-X", "ping-from-Y", "clock+31s"}
